@@ -426,6 +426,19 @@ class Grammar:
             out |= ts
         return frozenset(out)
 
+    def can_be_empty(self, typ: str) -> Optional[bool]:
+        """Can a `typ` node have no code child at all?  None = some class of that type has a grammar this model does not follow."""
+        verdict: Optional[bool] = False
+        for cname in self.type_classes.get(typ, []):
+            g = self.class_grammar.get(cname)
+            if g is None:
+                verdict = None if verdict is False else verdict
+                continue
+            _, nul = self._edge(g, True, {cname}, cname, frozenset())
+            if nul:
+                return True
+        return verdict
+
 
 @lru_cache(maxsize=None)
 def grammar(dialect: str = "ansi") -> Grammar:
